@@ -28,6 +28,13 @@ def c16_gen(rng, tier):
                 out.append("fs%d udp=%s tcp=%s name=%s type=1 dl=5500 da=0 ud=%d" % (n, udp, tcp, gens.hx(gens.rand_name(rng)),
                                                                                  rng.choice([2300, 2700, 3200])))
                 n += 1
+    # a HISTORY before the measured exchange: truncated reply answered over TCP, > 3 s of uptime, the UDP socket of the
+    # upstream replaced (the server's port went away for a moment): the next exchange must work as on a fresh upstream
+    # (seed C16-O: an absolute deadline left on the dialer both legs share)
+    for udp, tcp in ((("plain", "reply"), ("tc", "reply")) if budget(tier, 0, 1) else (("plain", "reply"),)):
+        out.append("fq%d udp=%s tcp=%s name=%s type=1 dl=1500 da=0 seq=tcgap gap=%d" % (n, udp, tcp, gens.hx(gens.rand_name(rng)),
+                                                                                 rng.choice([3300, 3600])))
+        n += 1
     # a VERY slow server: the UDP reply comes 10.5 s after the query (deadline 12.5 s): the UDP socket of the upstream
     # must still be there (its idle time-out is a minute; seeds C19-H / C16-M shortened it to 10 s / 2 s)
     for udp in (("plain",) if budget(tier, 0, 1) == 0 else ("plain", "tc")):
